@@ -25,6 +25,8 @@ func init() {
 		Run: runC05,
 	})
 	addMutants("C05",
+		mutant{"the last handler of a batch is skipped", "internal/poll_linux.go",
+			"\tfor _, handler := range posts {\n\t\thandler()\n\t\tatomic.AddInt64(&p.pending, -1)\n\t}", "\tfor i := 0; i < len(posts)-1; i++ {\n\t\tposts[i]()\n\t\tatomic.AddInt64(&p.pending, -1)\n\t}", "C05-R3"},
 		mutant{"handlers run under the mutex again", "internal/poll_linux.go",
 			"\tposts := p.posts\n\tp.posts = nil\n\tp.lck.Unlock()\n\n\tfor _, handler := range posts {\n\t\thandler()\n\t\tatomic.AddInt64(&p.pending, -1)\n\t}\n",
 			"\tposts := p.posts\n\tp.posts = nil\n\n\tfor _, handler := range posts {\n\t\thandler()\n\t\tatomic.AddInt64(&p.pending, -1)\n\t}\n\tp.lck.Unlock()\n", "C05-R1"},
@@ -408,6 +410,7 @@ func runC05(c *Ctx) {
 					u := strip(call.Common().Value).(*ssa.UnOp)
 					ia := u.X.(*ssa.IndexAddr)
 					c.check(increasingIndex(ia.Index), rf, "iteration", in.Pos(), "handlers are run in queue order", "handlers are not run in increasing queue order")
+					c.check(coversWholeSlice(ia, in.Block()), rf, "iteration covers the batch", in.Pos(), "every handler of the batch is run: index from 0, step 1, while index < len(batch)", "the loop over the batch does not run from the first to the last element in steps of one: a posted handler is skipped (never runs, stays counted) or run twice")
 				})
 			}
 		}
@@ -682,6 +685,56 @@ func increasingIndex(v ssa.Value) bool {
 				if d, ok := constInt(bo.Y); ok && d > 0 && stripConv(bo.X) == ssa.Value(ph) {
 					return true
 				}
+			}
+		}
+	}
+	return false
+}
+
+// coversWholeSlice: the element address ia is computed in a loop whose index starts at 0 (or at -1 with the increment
+// before the test, the form a range loop is lowered to), advances by exactly one, and whose body is entered under
+// index < len(the same slice).
+func coversWholeSlice(ia *ssa.IndexAddr, body *ssa.BasicBlock) bool {
+	idx := stripConv(ia.Index)
+	var ph *ssa.Phi
+	start := int64(0)
+	if bo, ok := idx.(*ssa.BinOp); ok && bo.Op == token.ADD && isConstInt(bo.Y, 1) {
+		ph, _ = stripConv(bo.X).(*ssa.Phi)
+		start = -1
+	} else {
+		ph, _ = idx.(*ssa.Phi)
+	}
+	if ph == nil || len(ph.Edges) != 2 {
+		return false
+	}
+	okStart, okStep := false, false
+	for _, e := range ph.Edges {
+		e = stripConv(e)
+		if isConstInt(e, start) {
+			okStart = true
+			continue
+		}
+		if bo, ok := e.(*ssa.BinOp); ok && bo.Op == token.ADD && isConstInt(bo.Y, 1) && stripConv(bo.X) == ssa.Value(ph) {
+			okStep = true
+		}
+	}
+	if !okStart || !okStep {
+		return false
+	}
+	for _, l := range guardsOf(body) {
+		op, x, y, ok := l.cmp()
+		if !ok {
+			continue
+		}
+		if op == token.GTR {
+			op, x, y = token.LSS, y, x
+		}
+		if op != token.LSS || stripConv(x) != idx {
+			continue
+		}
+		if call, ok := stripConv(y).(*ssa.Call); ok {
+			if b, ok := call.Call.Value.(*ssa.Builtin); ok && b.Name() == "len" && stripConv(call.Call.Args[0]) == stripConv(ia.X) {
+				return true
 			}
 		}
 	}
